@@ -47,6 +47,7 @@ type Config struct {
 	Full *FullCfg   `json:"full,omitempty"`
 	Saga *SagaCfg   `json:"saga,omitempty"`
 	Num  *NumericCfg `json:"numeric,omitempty"`
+	Comp *CompCfg   `json:"comp,omitempty"`
 }
 
 func flat(xs ...interface{}) []float64 {
@@ -97,6 +98,10 @@ func (c *Config) run(pc PoolCfg) (obs []float64, errd bool, panicked string) {
 	case "numeric":
 		o, pn := runNumeric(c.Num, -1, pc)
 		return o.Par, o.Err, pn
+	case "comp":
+		// batch evaluation of composite emissions; the sequential reference (pool of one thread) is the table
+		// obtained by direct LogPdf calls on the original distributions
+		return runComp(c.Comp, pc, pc.K == 1)
 	}
 	return nil, false, "unknown site"
 }
@@ -122,6 +127,13 @@ func (c *Config) oracle(pc PoolCfg, deadline time.Duration) string {
 			return "panic in the parallel run only: " + r.pn
 		case r.err != rerr:
 			return fmt.Sprintf("error flag differs: sequential=%v parallel=%v", rerr, r.err)
+		case !r.err && c.Site == "comp" && func() bool { nd, _ := tabDiff(r.obs, ref); return nd != 0 }():
+			nd, first := tabDiff(r.obs, ref)
+			if len(r.obs) != len(ref) {
+				return fmt.Sprintf("result differs from the sequential run: %d table entries instead of %d", len(r.obs), len(ref))
+			}
+			return fmt.Sprintf("result differs from the sequential run: %d of %d log-densities differ bitwise, first at %d: sequential=%v parallel=%v",
+				nd, len(ref), first, ref[first], r.obs[first])
 		case !r.err && !near(r.obs, ref, 1e-9):
 			return fmt.Sprintf("result differs from the sequential run: sequential=%v parallel=%v", ref, r.obs)
 		}
@@ -132,7 +144,9 @@ func (c *Config) oracle(pc PoolCfg, deadline time.Duration) string {
 }
 
 func genConfig(r *Rng) *Config {
-	switch r.Intn(9) {
+	switch r.Intn(11) {
+	case 9, 10:
+		return &Config{Site: "comp", Comp: genComp(r)}
 	case 6:
 		return &Config{Site: "saga", Saga: genSaga(r)}
 	case 7:
@@ -298,6 +312,8 @@ func fromRaw(rc *RawCase) *Config {
 		return &Config{Site: "saga", Saga: rc.Saga}
 	case rc.Num != nil:
 		return &Config{Site: "numeric", Num: rc.Num}
+	case rc.Comp != nil:
+		return &Config{Site: "comp", Comp: rc.Comp}
 	}
 	return nil
 }
@@ -413,7 +429,7 @@ func replayMain(o Opts) {
 	g.sw = NewCaseWriter(o.Out, "sreplay", oheader, "sagamism", 200)
 	g.sw.Type = "sagacase"
 	g.noTransPanics, _ = bwNoTransPanics()
-	rc := RawCase{Em: c.Em, Bw: c.Bw, Nm: c.Nm, X: c.X, Full: c.Full, Saga: c.Saga, Num: c.Num}
+	rc := RawCase{Em: c.Em, Bw: c.Bw, Nm: c.Nm, X: c.X, Full: c.Full, Saga: c.Saga, Num: c.Num, Comp: c.Comp}
 	g.replayInto(&rc)
 	w.Flush()
 	g.ow.Flush()
